@@ -32,6 +32,7 @@ pub fn def() -> CheckDef {
             vec![
                 ("big_model_cases_completed", big_min),
                 ("distinct_nontrivial", 300 * m),
+                ("ev_cases_with_shortcut_taken", 300 * m),
                 ("pos_attractor_top", 30 * m),
                 ("pos_attractor_under_operator", 30 * m),
                 ("pos_attractor_in_scope_1", 30 * m),
@@ -448,7 +449,11 @@ fn run(rng: &mut Rng, idx: u64, tier: Tier) -> CaseOut {
         }
     }
     let _ = drain_events(&mut out);
-    out.nontrivial = took_shortcut && world.nontrivial(&expected);
+    // (whether the library really took its shortcut is a hook observation: counted, but not what makes a case count)
+    if took_shortcut {
+        out.count("ev_cases_with_shortcut_taken");
+    }
+    out.nontrivial = npatterns > 0 && world.nontrivial(&expected);
     if out.nontrivial {
         out.sample = Some(detail("held"));
     }
